@@ -45,7 +45,7 @@ REQUIRED_PROBES["thorough"] = REQUIRED_PROBES["quick"]
 
 IANA = ["Europe/Berlin", "America/New_York", "Asia/Kolkata"]
 CUSTOM = ["Sim/A", "Sim/B", "Sïm/Ü"]
-OTHER = ["/Europe/Berlin", "W. Europe Standard Time", "Nowhere/Unknown"]
+OTHER = ["/Europe/Berlin", "W. Europe Standard Time", "Nowhere/Unknown", "europe/berlin"]
 POOL = IANA + CUSTOM + OTHER
 WALLS = [[2020, 3, 10, 10, 0, 0], [2020, 3, 29, 2, 30, 0], [2021, 11, 7, 1, 30, 0], [1999, 12, 31, 23, 59, 59],
          [2030, 6, 1, 12, 0, 0]]
@@ -71,7 +71,7 @@ def id_class(tzid):
         return "iana"
     if tzid in CUSTOM:
         return "custom"
-    return {"/Europe/Berlin": "slash", "W. Europe Standard Time": "windows"}.get(tzid, "unknown")
+    return {"/Europe/Berlin": "slash", "W. Europe Standard Time": "windows", "europe/berlin": "lowercase"}.get(tzid, "unknown")
 
 
 # ---------------------------------------------------------------------------
